@@ -91,6 +91,12 @@ def c04(run):
                             "C04", workers=8, threads=2)
     run.add(tlc, s)
     run.extra["exhaustive"] = True
+    run.sites = {"layout", "layout-inert", "panic"}
+    rounds = 20 if run.quick() else 200
+    tlc2, s2 = run_record_validate(run, "session", "session", "Trace_Session.tla", "C04", "layout-inert", rounds, shards=12, focus="C04", unit="new", timeout=6000)
+    run.add(tlc2, s2)
+    run.rule += ("  ||  impl -> spec: 12 x %d recorded random histories validated against Trace_Session with Focus=C04: a key for which Layout.Expected is empty (in the "
+                 "current configuration, any modifier) returns the composition and session flag unchanged, in whatever state the context is" % rounds)
     if s["notes"].get("layout_table_rows", 0) < 1000:
         raise ToolError("MC_Layout emitted only %s table rows" % s["notes"].get("layout_table_rows"))
     run.assumptions += ["the VC_* name -> layout entry naming convention transcribed in bin/gen.py from riti.h's names",
